@@ -58,8 +58,9 @@ def neighbour(version):
 
 
 class Config(object):
-    def __init__(self, k, m, s, start, with_neighbour):
+    def __init__(self, k, m, s, start, with_neighbour, pkg=None):
         self.k, self.m, self.s = k, m, s
+        self.pkg = pkg                  # package name when != app label
         self.start = start              # 'empty' | 'v0' | 'e<j>'
         self.nb = with_neighbour
         self.chain = migration_chain(m)
@@ -67,7 +68,7 @@ class Config(object):
 
     def describe(self):
         return {'k': self.k, 'm': self.m, 'mark_applied': self.marked,
-                'start': self.start, 'neighbour': self.nb}
+                'start': self.start, 'neighbour': self.nb, 'pkg': self.pkg}
 
     def kind(self):
         if self.s == self.k + 1:
@@ -90,10 +91,16 @@ class Config(object):
                 MoveToDjangoMigrations(mark_applied=list(self.marked))]}
         return {'SEQUENCE': seq, 'modules': mods}
 
+    def vm_app(self, nfields):
+        app = A('vm', [vm_spec(nfields)])
+        if self.pkg:
+            app['package'] = self.pkg
+        return app
+
     def install_old(self, upto):
         """Code before the hand-over: vm with `upto` evolutions, no
         migrations package."""
-        apps = [A('vm', [vm_spec(upto)])]
+        apps = [self.vm_app(upto)]
         evos = {'vm': self.evolutions(upto, False)}
         if self.nb:
             apps.append(neighbour(0))
@@ -101,7 +108,7 @@ class Config(object):
         return MZ.install(P(*apps), evolutions=evos)
 
     def install_final(self):
-        apps = [A('vm', [vm_spec(self.m - 1)])]
+        apps = [self.vm_app(self.m - 1)]
         evos = {'vm': self.evolutions(self.k, True)}
         if self.nb:
             apps.append(neighbour(1))
@@ -203,7 +210,7 @@ def run_config(cfg, driver, stats, add):
             % shape, replay, {'signature': sorted(sig.applied_migrations
                                                   or []), 'rows': rows})
     if cfg.kind() == 'consistent':
-        want = R.fresh(P(A('vm', [vm_spec(cfg.m - 1)])))['schema']
+        want = R.fresh(P(cfg.vm_app(cfg.m - 1)))['schema']
         cfg.install_final()
         got = {t: d for t, d in O.schema_dump('default', skip=SKIP).items()
                if t.startswith('vm_')}
@@ -255,12 +262,14 @@ def configs(tier):
                                              for j in range(1, k + 1)]
                 for st in starts_:
                     for nb in (False, True):
-                        out.append((k, m, s, st, nb))
+                        out.append((k, m, s, st, nb, None))
+                    # app label different from the package name
+                    out.append((k, m, s, st, False, 'vmpkg'))
     return out
 
 
 def work(task):
-    k, m, s, st, nb, driver = task
+    k, m, s, st, nb, pkg, driver = task
     stats = {'configs': 0, 'runs': 0, 'expected_failures': 0,
              'handovers_completed': 0, 'samples': []}
     viol = {}
@@ -275,7 +284,7 @@ def work(task):
             ent['count'] += 1
             if size < ent['size']:
                 ent.update(exemplar=replay, detail=detail, size=size)
-    cfg = Config(k, m, s, st, nb)
+    cfg = Config(k, m, s, st, nb, pkg)
     run_config(cfg, driver, stats, add)
     stats['samples'].append(dict(cfg.describe(), driver=driver))
     return stats, viol
@@ -328,7 +337,8 @@ def replay(path):
     doc = common.load_replay(path)
     r = doc['replay']
     s = len(r['mark_applied'])
-    cfg = Config(r['k'], r['m'], s, r['start'], r['neighbour'])
+    cfg = Config(r['k'], r['m'], s, r['start'], r['neighbour'],
+                 r.get('pkg'))
     found = {}
 
     def add(fp, replay, detail):
